@@ -138,7 +138,7 @@ def cases(draw, path, module=None, algo=None):
     deep = draw(st.booleans())
     nargs = draw(st.integers(0, 3))
     args = [draw(structures()) for _ in range(nargs)]
-    kws = [[n, draw(structures())] for n in draw(st.lists(st.sampled_from(['p', 'q', 'r']), unique=True, max_size=2))]
+    kws = [[n, draw(structures())] for n in draw(st.lists(st.sampled_from(['p', 'q', 'r', 'tol', 'deep']), unique=True, max_size=2))]      # 'tol' / 'deep': names klepto uses itself
     if not args and not kws:
         args = [draw(floatspecs())]
     # second call: nudge one float
